@@ -183,6 +183,13 @@ func run(r *report.Run, cc *sim.ChainCase) *report.Failure {
 					return nil
 				}
 				if res.LibErr != nil || res.Diff != "" {
+					// the result differs from the specification's (C02's subject); the context must nevertheless
+					// describe the state the library did produce — that comparison needs no reference
+					if res.LibErr == nil {
+						if f := check("after a slot advance whose result differs from the reference"); f != nil {
+							return f
+						}
+					}
 					r.Class("discarded_other_property(C02)")
 					return nil
 				}
@@ -208,6 +215,11 @@ func run(r *report.Run, cc *sim.ChainCase) *report.Failure {
 			return nil
 		}
 		if res.SlotsErr != nil || res.SlotsDiff != "" || res.LibErr != nil || res.Diff != "" {
+			if res.SlotsErr == nil && res.LibErr == nil {
+				if f := check("after a block whose result differs from the reference"); f != nil {
+					return f
+				}
+			}
 			r.Class("discarded_other_property(C01/C02)")
 			return nil
 		}
